@@ -103,7 +103,7 @@ func (World) ReplayAttempts(prop string) int {
 }
 
 func (World) Budget(prop, tier string) int {
-	q := map[string]int{"C12": 24000, "C13": 20000, "C14": 24000, "C15": 20000, "C16": 24000}[prop]
+	q := map[string]int{"C12": 12000, "C13": 12000, "C14": 12000, "C15": 10000, "C16": 12000}[prop]
 	if tier == "thorough" {
 		return q * 30
 	}
